@@ -517,7 +517,126 @@ struct Cx<'a, T: Sc> {
     /// coordinate differences is exact), appended to the call site in violation signatures
     regime: &'static str,
     verbose: bool,
+    /// Some(true) when geo's quick_hull / convex_hull output is bit-identical to what the PINNED quick-hull
+    /// algorithm (emulated below, with its rounded farthest-point search) returns for the same coordinate list
+    emu_quick: std::cell::Cell<Option<bool>>,
+    emu_hull: std::cell::Cell<Option<bool>>,
     _t: std::marker::PhantomData<T>,
+}
+
+// ------------------------------------------------------------------------------------------------
+// Emulation of the pinned quick-hull (geo/src/algorithm/convex_hull/qhull.rs as repaired by 6fdf8b23), for
+// the known finding `qhull_farthest_point_rounds`: same float operations in the same order for the farthest-point
+// search, exact integer orientation (on the lattice pre-images) where geo uses the robust kernel. A wrong hull is
+// attributed to the known finding only if it is exactly this algorithm's answer; a changed quick-hull that fails
+// in the same numeric regime gives a different ring and stays a violation.
+mod emu {
+    use super::Sc;
+    use geo::Coord;
+    type Pt<T> = (Coord<T>, (i64, i64));
+    fn ccw<T: Sc>(a: &Pt<T>, b: &Pt<T>, c: &Pt<T>) -> bool {
+        crate::ig::orient_i(a.1, b.1, c.1) > 0
+    }
+    fn partition<'s, T: Sc>(data: &'s mut [Pt<T>], pred: &dyn Fn(&Pt<T>) -> bool) -> &'s mut [Pt<T>] {
+        let len = data.len();
+        if len == 0 {
+            return data;
+        }
+        let (mut l, mut r) = (0, len - 1);
+        loop {
+            while l < len && pred(&data[l]) {
+                l += 1;
+            }
+            while r > 0 && !pred(&data[r]) {
+                r -= 1;
+            }
+            if l >= r {
+                return &mut data[..l];
+            }
+            data.swap(l, r);
+        }
+    }
+    fn hull_set<T: Sc>(p_a: Pt<T>, p_b: Pt<T>, set: &mut [Pt<T>], hull: &mut Vec<Coord<T>>, depth: usize) -> Option<()> {
+        if depth > 4000 {
+            return None;
+        }
+        if set.is_empty() {
+            return Some(());
+        }
+        if set.len() == 1 {
+            hull.push(set[0].0);
+            return Some(());
+        }
+        let (a, b) = (p_a.0, p_b.0);
+        let p_orth = Coord { x: a.y - b.y, y: b.x - a.x };
+        let p_along = Coord { x: b.x - a.x, y: b.y - a.y };
+        let mut keys = vec![];
+        for pt in set.iter() {
+            let p_diff = Coord { x: pt.0.x - a.x, y: pt.0.y - a.y };
+            keys.push((p_orth.x * p_diff.x + p_orth.y * p_diff.y, p_along.x * p_diff.x + p_along.y * p_diff.y));
+        }
+        if keys.iter().any(|k| k.0.partial_cmp(&k.0).is_none() || k.1.partial_cmp(&k.1).is_none()) {
+            return None; // geo would panic on the unwrap
+        }
+        let furthest_idx = keys.iter().enumerate().max_by(|(_, x), (_, y)| x.partial_cmp(y).unwrap()).unwrap().0;
+        set.swap(0, furthest_idx);
+        let (head, set) = set.split_first_mut().unwrap();
+        let fp = *head;
+        {
+            let points = partition(set, &|p| ccw(&fp, &p_b, p));
+            hull_set(fp, p_b, points, hull, depth + 1)?;
+        }
+        hull.push(fp.0);
+        let points = partition(set, &|p| ccw(&p_a, &fp, p));
+        hull_set(p_a, fp, points, hull, depth + 1)
+    }
+    /// None: not emulated (fewer than 4 coordinates take the trivial path; NaN keys; runaway recursion)
+    pub fn quick_hull<T: Sc>(cs: &[Coord<T>], sh: i32) -> Option<Vec<Coord<T>>> {
+        if cs.len() < 4 {
+            return None;
+        }
+        let mut v: Vec<Pt<T>> = vec![];
+        for c in cs {
+            v.push((*c, (c.x.dec(sh)?, c.y.dec(sh)?)));
+        }
+        let lex = |p: &Pt<T>, q: &Pt<T>| p.1.cmp(&q.1); // the encoding is monotone: same order as geo's lex_cmp on the floats
+        let (mut min_idx, mut max_idx) = (0usize, 0usize);
+        for (i, p) in v.iter().enumerate() {
+            if lex(p, &v[min_idx]) == std::cmp::Ordering::Less {
+                min_idx = i;
+            }
+            if lex(p, &v[max_idx]) == std::cmp::Ordering::Greater {
+                max_idx = i;
+            }
+        }
+        let mut points: &mut [Pt<T>] = &mut v[..];
+        points.swap(0, min_idx);
+        let (h, t) = points.split_first_mut().unwrap();
+        let min = *h;
+        points = t;
+        if max_idx == 0 {
+            max_idx = min_idx;
+        }
+        max_idx = max_idx.saturating_sub(1);
+        points.swap(0, max_idx);
+        let (h, t) = points.split_first_mut().unwrap();
+        let max = *h;
+        points = t;
+        let mut hull = vec![];
+        {
+            let p = partition(points, &|p| ccw(&max, &min, p));
+            hull_set(max, min, p, &mut hull, 0)?;
+        }
+        hull.push(max.0);
+        let p = partition(points, &|p| ccw(&min, &max, p));
+        hull_set(min, max, p, &mut hull, 0)?;
+        hull.push(min.0);
+        if hull.first() != hull.last() {
+            let f = hull[0];
+            hull.push(f);
+        }
+        Some(hull)
+    }
 }
 impl<'a, T: Sc> Cx<'a, T> {
     fn viol(&self, sh: &mut Shard, check: &str, site: &str, expected: String, got: String, ring: Value) {
@@ -531,7 +650,14 @@ impl<'a, T: Sc> Cx<'a, T> {
         let site = &format!("{site}{}", self.regime);
         // known finding: quick_hull's farthest-point selection uses a rounded dot product; attributed only in the
         // input-defined regimes where that arithmetic is not exact, and only at the quick-hull entry points
-        let cls = if !self.regime.is_empty() && check.starts_with("hull.") && (site_plain.starts_with("quick_hull") || site_plain.starts_with("convex_hull")) { "qhull_farthest_point_rounds" } else { "-" };
+        let emulated = if site_plain.starts_with("quick_hull") {
+            self.emu_quick.get()
+        } else if site_plain.starts_with("convex_hull") {
+            self.emu_hull.get()
+        } else {
+            None
+        };
+        let cls = if !self.regime.is_empty() && check.starts_with("hull.") && emulated == Some(true) { "qhull_farthest_point_rounds" } else { "-" };
         let sig = format!("{check}|{site}|{cls}");
         sh.class(&format!("viol:{check}:{}", T::NAME));
         if !self.verbose && (sh.viol_sigs.get(&sig).copied().unwrap_or(0) >= 3 || sh.violations.len() >= 60) {
@@ -1084,7 +1210,7 @@ fn run_case<T: Sc>(sh: &mut Shard, case: &Case, verbose: bool) {
             _ => "regime:float differences round",
         });
     }
-    let cx: Cx<T> = Cx { case, inp: &inp, in_bits, regime, verbose, _t: std::marker::PhantomData };
+    let cx: Cx<T> = Cx { case, inp: &inp, in_bits, regime, verbose, emu_quick: Default::default(), emu_hull: Default::default(), _t: std::marker::PhantomData };
     let dom = inp.in_domain();
     if verbose {
         println!("scalar {} container {} sh {} n={} distinct={} in-domain={}", T::NAME, case.cont, case.sh, case.pts.len(), inp.set.len(), dom);
@@ -1146,6 +1272,15 @@ fn run_case<T: Sc>(sh: &mut Shard, case: &Case, verbose: bool) {
     watch::enter(case);
     let outs: Outs<T> = geo_calls::<T>(&cs, case.cont, case.cseed, case.full);
     watch::leave();
+    if !regime.is_empty() {
+        let same = |a: &[Coord<T>], b: &[Coord<T>]| a.len() == b.len() && a.iter().zip(b).all(|(p, q)| p.x.bits() == q.x.bits() && p.y.bits() == q.y.bits());
+        if let Ok(ring) = &outs.quick {
+            cx.emu_quick.set(emu::quick_hull(&cs, case.sh).map(|e| same(&e, ring)));
+        }
+        if let (Some(Ok(poly)), Some(input)) = (&outs.hull, &outs.hull_input) {
+            cx.emu_hull.set(emu::quick_hull(input, case.sh).map(|e| same(&e, &poly.exterior().0)));
+        }
+    }
     // quick_hull
     let q = outs.quick;
     let mut qset = None;
@@ -1273,6 +1408,8 @@ pub struct Outs<T: Sc> {
     graham: Result<Vec<Coord<T>>, String>,
     graham_on: Option<Result<Vec<Coord<T>>, String>>,
     hull: Option<Result<Polygon<T>, String>>,
+    /// the coordinate list convex_hull hands to quick_hull (the container's exterior coordinates, in traversal order)
+    hull_input: Option<Vec<Coord<T>>>,
     mrr: Option<Result<Option<Polygon<T>>, String>>,
 }
 fn callp<R>(f: impl FnOnce() -> R) -> Result<R, String> {
@@ -1284,14 +1421,19 @@ fn geo_calls<T: Sc>(cs: &[Coord<T>], cont: &'static str, cseed: u64, full: bool)
     let mut v = cs.to_vec();
     let graham = callp(|| graham_hull(&mut v, false).0);
     if !full {
-        return Outs { quick, graham, graham_on: None, hull: None, mrr: None };
+        return Outs { quick, graham, graham_on: None, hull: None, hull_input: None, mrr: None };
     }
     let mut v = cs.to_vec();
     let graham_on = Some(callp(|| graham_hull(&mut v, true).0));
     let c = build::<T>(cont, cs, cseed);
     let hull = Some(callp(|| with_cont!(&c, x => x.convex_hull())));
+    let hull_input = call(|| {
+        use geo::CoordsIter;
+        with_cont!(&c, x => x.exterior_coords_iter().collect::<Vec<Coord<T>>>())
+    })
+    .ok();
     let mrr = T::mrr(&c);
-    Outs { quick, graham, graham_on, hull, mrr }
+    Outs { quick, graham, graham_on, hull, hull_input, mrr }
 }
 
 /// Hang watchdog.  A geo call that never returns (or blows up exponentially) would take the whole
